@@ -295,6 +295,30 @@ Theorem C20_gen_upkeep_ids :
 Proof. exact gen_sim_upkeep_ids. Qed.
 Print Assumptions C20_gen_upkeep_ids.
 
+(* DecodeSimulationPlan, one event: appended to the list of its type, a generate event without `expected` getting the default; an unknown type tag is an error - the model's decode_step *)
+Theorem C20_gen_plan_decode_event :
+  forall p e,
+  decode_step (Some p) (Some e) =
+  match g_sim_plan_decode_event false (Z.of_N (e_type e)) 1 2 3 false false false (N.eqb (e_expected e) 0) with
+  | ([1], Fall) => Some (mkPlan (p_confs p ++ [e]) (p_gens p) (p_logs p))
+  | ([2; 3], Fall) => Some (mkPlan (p_confs p) (p_gens p ++ [mkEv (e_type e) 1%N (e_data e)]) (p_logs p))
+  | ([3], Fall) => Some (mkPlan (p_confs p) (p_gens p ++ [e]) (p_logs p))
+  | ([4], Fall) => Some (mkPlan (p_confs p) (p_gens p) (p_logs p ++ [e]))
+  | _ => None
+  end.
+Proof. exact gen_sim_plan_decode_event. Qed.
+Print Assumptions C20_gen_plan_decode_event.
+
+(* DecodeSimulationPlan: every decoding failure returns an error before anything is appended *)
+Theorem C20_gen_plan_decode_errors :
+  forall ty a b c d,
+  g_sim_plan_decode_event true ty 1 2 3 a b c d = ([], RetO 1) /\
+  g_sim_plan_decode_event false 1 1 2 3 true b c d = ([], RetO 2) /\
+  g_sim_plan_decode_event false 2 1 2 3 a true c d = ([], RetO 3) /\
+  g_sim_plan_decode_event false 3 1 2 3 a b true d = ([], RetO 4).
+Proof. exact gen_sim_plan_decode_errors. Qed.
+Print Assumptions C20_gen_plan_decode_errors.
+
 End GenTie.
 
 (* Non-vacuity: four ids (the case that crashed a real run) give a summary; three performs
